@@ -165,6 +165,65 @@ pub fn generate(property: &str, seed: u64, tier: Tier) -> Plan {
             steps.insert(a, json!({"op":"fdesc","dev":d,"fslot":fslot,"val":val + 501}));
         }
     }
+    if matches!(property, "C04" | "C05") {
+        // divergence of the FILES event log: a shared first file event, then two
+        // devices each add an external file while apart. Independent stream.
+        let mut fr = Rng::new(seed).fork("netw.files_log");
+        if fr.chance(1, 4) && steps.len() > 4 {
+            let a = fr.below(n_dev);
+            let b = (a + 1 + fr.below(n_dev - 1)) % n_dev;
+            let x = |dev: u64, k: u64, fr: &mut Rng| {
+                json!({"op":"xcreate","dev":dev,"slot":fr.below(N_SLOTS),"folder":0,"val":val + 400 + k,"size":fr.below(5),
+                    "label":fr.below(3),"tags":fr.below(8),"fav":false,"attach":0})
+            };
+            let mut seq = vec![x(a, 0, &mut fr)];
+            for d in [a, a, b, b] {
+                seq.push(json!({"op":"sync","dev":d}));
+            }
+            seq.push(x(a, 1, &mut fr));
+            seq.push(x(b, 2, &mut fr));
+            let (first, second) = if fr.chance(1, 2) { (a, b) } else { (b, a) };
+            seq.push(json!({"op":"sync","dev":first}));
+            seq.push(json!({"op":"sync","dev":second}));
+            let at = 2 + fr.below(steps.len() as u64 - 1) as usize;
+            for (i, st) in seq.into_iter().enumerate() {
+                steps.insert((at + i).min(steps.len()), st);
+            }
+        }
+    }
+    if property == "C20" {
+        // lifecycle of a folder that the other device only ever sees through
+        // merges: created and filled on device a, propagated (two syncs each:
+        // folders travel in two phases), edited, then deleted on a and the
+        // deletion merged on b. Independent stream.
+        let mut fr = Rng::new(seed).fork("netw.c20.remote_folder");
+        if fr.chance(1, 2) && steps.len() > 4 {
+            let a = fr.below(n_dev);
+            let b = (a + 1 + fr.below(n_dev - 1)) % n_dev;
+            let k = fr.below(2);
+            let folder = 4 + k;
+            let mut seq = vec![json!({"op":"fcreate","dev":a,"fslot":k,"name":fr.below(2),"cipher":fr.below(2),"kdf":fr.below(2),"val":val + 300})];
+            for j in 0..fr.range(1, 3) {
+                seq.push(json!({"op":"create","dev":a,"slot":fr.below(N_SLOTS),"folder":folder,"kind":fr.below(15),"val":val + 301 + j,
+                    "label":fr.below(3),"tags":fr.below(8),"fav":fr.chance(1,2),"big":false}));
+            }
+            for d in [a, a, b, b] {
+                seq.push(json!({"op":"sync","dev":d}));
+            }
+            if fr.chance(1, 2) {
+                seq.push(json!({"op":"update","dev":a,"slot":fr.below(N_SLOTS),"val":val + 310,"label":fr.below(3),"tags":fr.below(8),"fav":fr.chance(1,2),"meta_only":fr.chance(1,2)}));
+                seq.push(json!({"op":"sync","dev":a}));
+                seq.push(json!({"op":"sync","dev":b}));
+            }
+            seq.push(json!({"op":"fdelete","dev":a,"fslot":k}));
+            seq.push(json!({"op":"sync","dev":a}));
+            seq.push(json!({"op":"sync","dev":b}));
+            let at = 2 + fr.below(steps.len() as u64 - 1) as usize;
+            for (i, st) in seq.into_iter().enumerate() {
+                steps.insert((at + i).min(steps.len()), st);
+            }
+        }
+    }
     if property == "C19" {
         // upgrades of devices (and sometimes the server) from the file-system
         // to the database backend at seeded positions, with synced and
